@@ -3,6 +3,7 @@
 package main
 
 import (
+	"encoding/json"
 	"fmt"
 	"math"
 	"strings"
@@ -14,7 +15,7 @@ import (
 // blockID is a block identifier as it goes on the wire, together with the class it was drawn
 // from (the id kind is part of every case key and of every violation signature).
 type blockID struct {
-	tag  string    // "number" | "hash" | "both" (object with both members) | "empty" ({}) | "other" (not a block id at all) | "latest" | "l1" | "str" (any other string)
+	tag  string    // "number" | "hash" | "both" (object with both members) | "empty" ({}) | "other" (not a block id at all) | "latest" | "l1" | "str" (any other string) | "null" (JSON null) | "nullnum" ({"block_number": null})
 	num  uint64    // number, both
 	hash felt.Felt // hash, both
 	str  string    // str
@@ -32,14 +33,36 @@ func (b blockID) json() any {
 		return map[string]any{"block_hash": b.hash.String(), "block_number": b.num}
 	case "empty":
 		return map[string]any{}
+	case "null":
+		return nil
+	case "nullnum":
+		return map[string]any{"block_number": nil}
 	case "other":
-		switch b.num % 3 {
+		switch b.num % nOtherIDs {
 		case 0:
 			return 5
 		case 1:
 			return []any{"latest"}
-		default:
+		case 2:
 			return map[string]any{"block_number": "0x1"} // a string where a number is required
+		case 3:
+			return map[string]any{"block_hash": nil}
+		case 4:
+			return map[string]any{"block_hash": nil, "block_number": 0}
+		case 5:
+			return map[string]any{"block_number": json.Number("1.0")}
+		case 6:
+			return map[string]any{"block_number": -1}
+		case 7:
+			return map[string]any{"block_number": json.Number("18446744073709551616")}
+		case 8:
+			return map[string]any{"block_number": json.Number("1e0")}
+		case 9:
+			return map[string]any{"block_hash": 5}
+		case 10:
+			return map[string]any{"block_hash": "0x800000000000011000000000000000000000000000000000000000000000001"} // = P
+		default:
+			return true
 		}
 	case "latest":
 		return "latest"
@@ -50,9 +73,15 @@ func (b blockID) json() any {
 	}
 }
 
+const nOtherIDs = 12
+
 // lean renders the identifier for the model driver (wire form).
 func (b blockID) lean() string {
 	switch b.tag {
+	case "null":
+		return "null"
+	case "nullnum":
+		return "nn"
 	case "number":
 		return fmt.Sprintf("n:%x", b.num)
 	case "hash":
@@ -109,6 +138,8 @@ type query struct {
 	class  felt.Felt
 	filter []felt.Felt // v10 getStateUpdate contract_addresses (nil: absent)
 	named  bool        // pass params by name instead of by position
+
+	nullPos string // "" | "addr" | "key" | "class" | "txhash" | "index": that required argument is JSON null
 
 	proofFacts bool // v10: pass response_flags ["INCLUDE_PROOF_FACTS"] (block with txs / receipts, tx by hash / index)
 }
@@ -182,6 +213,14 @@ func (q *query) params(version string) any {
 	default:
 		panic("unknown method " + q.method)
 	}
+	if q.nullPos != "" {
+		key := map[string]string{"addr": "contract_address", "key": "key", "class": "class_hash", "txhash": "transaction_hash", "index": "index"}[q.nullPos]
+		for i := range ps {
+			if ps[i].k == key {
+				ps[i].v = nil
+			}
+		}
+	}
 	if q.named {
 		m := map[string]any{}
 		for _, p := range ps {
@@ -198,6 +237,23 @@ func (q *query) params(version string) any {
 
 // leanLine is the request for the model driver.
 func (q *query) leanLine(version, backend string) string {
+	if q.nullPos != "" {
+		s := "q " + version + " " + backend + " "
+		switch {
+		case q.nullPos == "txhash":
+			return s + "null:txHash"
+		case q.nullPos == "index":
+			return s + "null:index " + q.id.lean()
+		case q.nullPos == "class":
+			return s + "null:class " + q.id.lean()
+		case q.method == "storage" && q.nullPos == "addr":
+			return s + "null:storageAddr " + q.id.lean() + " " + hxv(q.key)
+		case q.method == "storage":
+			return s + "null:storageKey " + q.id.lean() + " " + hxv(q.addr)
+		default:
+			return s + "null:" + q.method + " " + q.id.lean()
+		}
+	}
 	s := "q " + version + " " + backend + " " + q.method
 	switch q.method {
 	case "blockNumber", "blockHashAndNumber":
@@ -239,6 +295,9 @@ func (q *query) kindKey() string {
 	}
 	if q.sub != "" {
 		k += "/" + q.sub
+	}
+	if q.nullPos != "" {
+		k += "/null-" + q.nullPos
 	}
 	return k
 }
@@ -299,7 +358,9 @@ func (w *world) blockIDs(r *lib.RNG) []*blockID {
 	add(blockID{tag: "str", str: "pre_confirmed", kind: "tag-pre_confirmed"})
 	add(blockID{tag: "str", str: lib.Pick(r, []string{"", "Latest", "earliest", "0x1", "pre-confirmed"}), kind: "tag-unknown"})
 	add(blockID{tag: "empty", kind: "obj-empty"})
-	add(blockID{tag: "other", num: uint64(r.Intn(3)), kind: "not-an-id"})
+	add(blockID{tag: "other", num: uint64(r.Intn(nOtherIDs)), kind: "not-an-id"})
+	add(blockID{tag: "null", kind: "id-null"})
+	add(blockID{tag: "nullnum", kind: "obj-null-number"})
 	if h > 0 {
 		// both members: block_hash wins
 		m := r.Intn(h)
@@ -452,6 +513,24 @@ func (w *world) round(r *lib.RNG, pairsPerID, txPerKind int) []*query {
 		for _, m := range []string{"txByHash", "receipt", "txStatus"} {
 			add(query{method: m, txHash: h.h, sub: h.kind})
 		}
+	}
+
+	// JSON null where a hash / an index / an address / a key / a class hash is required
+	for _, m := range []string{"txByHash", "receipt", "txStatus"} {
+		add(query{method: m, nullPos: "txhash", sub: "tx-null"})
+	}
+	for _, id := range ids {
+		if !r.Chance(1, 3) {
+			continue
+		}
+		a := lib.Pick(r, w.addrUniverse())
+		add(query{method: "txByIdx", id: id, nullPos: "index", sub: "idx-null"})
+		add(query{method: "nonce", id: id, nullPos: "addr"})
+		add(query{method: "classHashAt", id: id, nullPos: "addr"})
+		add(query{method: "classAt", id: id, nullPos: "addr"})
+		add(query{method: "class", id: id, nullPos: "class"})
+		add(query{method: "storage", id: id, key: *lib.F(1), nullPos: "addr"})
+		add(query{method: "storage", id: id, addr: a, nullPos: "key", sub: addrKind(&a)})
 	}
 
 	// state reads
@@ -626,7 +705,10 @@ func (w *world) exhaustive() []*query {
 		&blockID{tag: "latest", kind: "latest"}, &blockID{tag: "l1", kind: "l1_accepted"},
 		&blockID{tag: "str", str: "pending", kind: "tag-pending"}, &blockID{tag: "str", str: "pre_confirmed", kind: "tag-pre_confirmed"},
 		&blockID{tag: "str", str: "earliest", kind: "tag-unknown"}, &blockID{tag: "empty", kind: "obj-empty"},
-		&blockID{tag: "other", num: 0, kind: "not-an-id"}, &blockID{tag: "other", num: 1, kind: "not-an-id"}, &blockID{tag: "other", num: 2, kind: "not-an-id"})
+		&blockID{tag: "null", kind: "id-null"}, &blockID{tag: "nullnum", kind: "obj-null-number"})
+	for i := 0; i < nOtherIDs; i++ {
+		ids = append(ids, &blockID{tag: "other", num: uint64(i), kind: "not-an-id"})
+	}
 	if h > 0 {
 		ids = append(ids, &blockID{tag: "both", hash: *w.g.Bundles[0].Block.Hash, num: uint64(h - 1), kind: "obj-both"})
 	}
@@ -670,6 +752,19 @@ func (w *world) exhaustive() []*query {
 		for _, c := range classes {
 			add(query{method: "class", id: id, class: c.h, sub: c.kind})
 		}
+		add(query{method: "txByIdx", id: id, nullPos: "index", sub: "idx-null"})
+		add(query{method: "nonce", id: id, nullPos: "addr"})
+		add(query{method: "classHashAt", id: id, nullPos: "addr"})
+		add(query{method: "classAt", id: id, nullPos: "addr"})
+		add(query{method: "class", id: id, nullPos: "class"})
+		add(query{method: "storage", id: id, key: *lib.F(1), nullPos: "addr"})
+		for i := range addrs {
+			a := addrs[i]
+			add(query{method: "storage", id: id, addr: a, nullPos: "key", sub: addrKind(&a)})
+		}
+	}
+	for _, m := range []string{"txByHash", "receipt", "txStatus"} {
+		add(query{method: m, nullPos: "txhash", sub: "tx-null"})
 	}
 	for _, b := range w.g.Bundles {
 		for _, tx := range b.Block.Transactions {
